@@ -1,7 +1,7 @@
 //! C02, C09, C10, C11: the receive-path properties over the deviation spaces.
 use super::common::*;
 use super::dec::*;
-use super::stateprops::sigma13;
+use super::stateprops::{mixed_machine, sigma13};
 use super::*;
 use crate::engine::{Acc, ReplayOut};
 use crate::explore::*;
@@ -258,6 +258,56 @@ pub fn run_c09(run: &mut Run) {
             }
         });
     }
+    // cross-kind histories: after any sequence of <= 3 calls of any kind, the decode outcome of
+    // every packet of the mixed alphabet equals the outcome on a fresh context (and the reference's)
+    {
+        let m = mixed_machine();
+        let a = m.alphabet.len() as u64;
+        let depth = if thorough { 4 } else { 3 };
+        let pkts: Vec<Vec<u8>> = m
+            .alphabet
+            .iter()
+            .filter_map(|e| match e {
+                Event::Process(p) | Event::Decode(p) => Some(p.clone()),
+                _ => None,
+            })
+            .collect();
+        let np = pkts.len() as u64;
+        let total: u64 = (0..=depth).map(|d| a.pow(d) * np).sum();
+        run.sweep_chunked(&format!("MIXSEQ: every history of length <= {} over {} events of every kind, then each of {} packets decoded: outcome vs a fresh context", depth, a, np), total, |acc, lo, hi| {
+            let owned = Owned::new(&m.cfg);
+            for i in lo..hi {
+                let mut r = i;
+                let mut len = 0u32;
+                while r >= a.pow(len) * np {
+                    r -= a.pow(len) * np;
+                    len += 1;
+                }
+                let last = &pkts[(r % np) as usize];
+                r /= np;
+                let mut hist = vec![];
+                for _ in 0..len {
+                    hist.push(m.alphabet[(r % a) as usize].clone());
+                    r /= a;
+                }
+                let ctxs = vec![owned.ctx(), build(&owned, &hist)];
+                acc.evals += 1;
+                let j = judge_c09(&ctxs, last, false);
+                if !j.executed {
+                    acc.skipped_known += 1;
+                    continue;
+                }
+                acc.trans += 2 + hist.len() as u64;
+                acc.validated += 1;
+                if len >= 1 {
+                    acc.nontrivial(Fnv::default().u64(0x9E).u64(i).finish());
+                }
+                for (kind, d) in j.viols {
+                    acc.violation(len as u64, kind, d, || json!({"prop": "C09", "check": "decode", "input": hex(last), "state": hist, "cfg": m.cfg}));
+                }
+            }
+        });
+    }
     // a stride of the t=1 space on every reachable state of the C13 machine
     let reps = reachable_states(run);
     let stride = 61u64;
@@ -292,7 +342,7 @@ pub fn replay_c09(case: &Value) -> Result<ReplayOut, String> {
     let bytes = get_hex(case, "input")?;
     let j = if case["state"].is_array() {
         let st: Vec<Event> = get_de(case, "state")?;
-        let cfg = Cfg::simple(DST);
+        let cfg: Cfg = if case["cfg"].is_object() { get_de(case, "cfg")? } else { Cfg::simple(DST) };
         let owned = Owned::new(&cfg);
         let ctxs = vec![owned.ctx(), build(&owned, &st)];
         judge_c09(&ctxs, &bytes, true)
@@ -556,6 +606,8 @@ pub fn run_c10(run: &mut Run) {
             }
         });
     }
+    // cross-kind histories: no call of any kind may unwind after any sequence of the others
+    stateless(run, "C10", "MIXSEQ (every kind of call on one context)", &mixed_machine(), if thorough { 5 } else { 4 }, &|d: &Diff, _h: &[Event]| d.aspect == Aspect::Panic);
     // every reachable state of the C13 machine: axes 0-3 and the truncation space
     let reps = reachable_states(run);
     let cfg = Cfg::simple(DST);
@@ -595,6 +647,10 @@ pub fn run_c10(run: &mut Run) {
 }
 
 pub fn replay_c10(case: &Value) -> Result<ReplayOut, String> {
+    if case["check"].as_str() == Some("history") {
+        let (diffs, _last, observed) = replay_history(case)?;
+        return Ok(ReplayOut { violations: diffs.iter().filter(|d| d.aspect == Aspect::Panic).map(|d| d.text.clone()).collect(), observed });
+    }
     let spec: CtxSpec = get_de(case, "spec")?;
     let bytes = get_hex(case, "input")?;
     let owned = Owned::new(&spec.cfg);
@@ -764,13 +820,14 @@ pub fn run_c11(run: &mut Run) {
             1
         });
     }
-    // histories: every sequence of length <= 3 over the C13 alphabet, twin comparison at the last step
-    let alphabet = sigma13();
+    // histories: every sequence of length <= 3 over the C13 alphabet and over the mixed-kind alphabet,
+    // twin comparison at the last step
+    let mixed = mixed_machine();
+    for (aname, alphabet, cfg) in [("the C13 alphabet", sigma13(), Cfg::simple(DST)), ("the MIXSEQ alphabet (every kind of call)", mixed.alphabet.clone(), mixed.cfg.clone())] {
     let a = alphabet.len() as u64;
-    let cfg = Cfg::simple(DST);
     let depth = if thorough { 4 } else { 3 };
     let total: u64 = (1..=depth).map(|d| a.pow(d)).sum();
-    run.sweep_chunked(&format!("every sequence of length 1..={} over the C13 alphabet, twins at the last step", depth), total, |acc, lo, hi| {
+    run.sweep_chunked(&format!("every sequence of length 1..={} over {}, twins at the last step", depth, aname), total, |acc, lo, hi| {
         let owned = Owned::new(&cfg);
         for i in lo..hi {
             let mut r = i;
@@ -793,6 +850,7 @@ pub fn run_c11(run: &mut Run) {
             }
         }
     });
+    }
 }
 
 pub fn replay_c11(case: &Value) -> Result<ReplayOut, String> {
@@ -1065,6 +1123,7 @@ pub fn run_c02(run: &mut Run) {
     // (c) histories
     let m = Machine { cfg: Cfg::simple(DST), init: vec![], alphabet: c02_alphabet() };
     stateless(run, "C02", "12-event alphabet with corrupted Set EID variants", &m, if thorough { 5 } else { 4 }, &c02_filter);
+    stateless(run, "C02", "MIXSEQ (every kind of call on one context)", &mixed_machine(), if thorough { 5 } else { 4 }, &c02_filter);
     let st = bfs(run, "C02", "12-event alphabet with corrupted Set EID variants", &m, &c02_filter, 100_000);
     let reps = st.reps.clone();
     let valid = forge_request(SRC, DST, 0, false, 0x01, &[0, 0x33]);
